@@ -261,7 +261,7 @@ _EXTRA = {
     "C17": " Also: stale files at the destination, a downstream consumer emptying the destination between rounds, the start-up listing as completeness oracle for start(), deletions of unselected source files.",
     "C18": " Also: destination pre-occupied (short / same-size files), source and destination reached through symbolic links, time identifiers in several forms, --only with nested channels, name-prefix and blank-containing channels.",
     "C19": " Every sixth run judges only the counters of a recording whose relative positions pass 2**63; 15% of the sessions end by an exception leaving a with-block; flat I/Q input.",
-    "C20": " RF-reader metadata queries before the first metadata write, back-fill writes with old readers alive, reads naming a missing column after clock jumps. One seeded change (S-C20l: RF reader created before the metadata directory exists) is not reached by this engine - see DESIGN.md section 12.",
+    "C20": " RF-reader metadata queries before the first metadata write, back-fill writes with old readers alive, reads naming a missing column after clock jumps. In 30% of the runs with an RF channel the metadata directory and writer are created only after a long-lived RF reader has been asked for metadata; that reader must report every later write.",
 }
 for _k, _v in _EXTRA.items():
     CHECKS[_k]["note"] = CHECKS[_k]["note"] + _v
